@@ -284,6 +284,10 @@ Section Controller.
   Variable V : Type.
   Variable dflt : V.
   Variable h : nat -> list V -> V.         (* defn.update(): recompute from args' values *)
+  Variable fails : nat -> list V -> bool.  (* defn.update() RAISES on these argument values (e.g. an inadmissible
+                                              parameter combination); the exception reaches the caller *)
+  Variable retain : bool.                  (* the dirty set survives a raising update (pinned code: _changed is only
+                                              cleared after the loop); false = swap-and-clear before the loop *)
 
   Definition dgraph := list (list nat).     (* args by rank; [] = leaf *)
 
@@ -303,17 +307,26 @@ Section Controller.
   Definition recompute (g : dgraph) (asg vals : list V) (d : nat) : V :=
     if is_leaf g d then nth d asg dflt else h d (map (fun a => nth a vals dflt) (dargs g d)).
 
-  (** _updateIntermediateValues l.791-800 *)
+  Definition dargvals (g : dgraph) (vals : list V) (d : nat) : list V := map (fun a => nth a vals dflt) (dargs g d).
+  Definition raises_at (g : dgraph) (vals : list V) (d : nat) : bool := negb (is_leaf g d) && fails d (dargvals g vals d).
+
+  (** one iteration of the loop of _updateIntermediateValues; the third component says that an
+      update has raised (the loop is abandoned) *)
+  Definition pass_step (g : dgraph) (asg : list V) (acc : list V * list nat * bool) (d : nat) : list V * list nat * bool :=
+    let '(vals, ch, failed) := acc in
+    if failed then acc
+    else if memb d ch then
+           (if raises_at g vals d then (vals, ch, true)
+            else (upd d (recompute g asg vals d) vals, ch ++ clients g d, false))
+         else acc.
+
+  (** _updateIntermediateValues l.793-802: on success the dirty set is cleared; when an update raised,
+      self.values of that definition is not assigned and the dirty set is retained (or lost) *)
   Definition update_pass (g : dgraph) (s : cstate) : cstate :=
     if suspended s then s
     else
-      let '(vals, ch) :=
-        fold_left (fun acc d =>
-                     let '(vals, ch) := acc in
-                     if memb d ch then (upd d (recompute g (assigned s) vals d) vals, ch ++ clients g d)
-                     else (vals, ch))
-                  (seq 0 (length g)) (values s, changed s) in
-      mk_cstate vals (assigned s) [] (suspended s).
+      let '(vals, ch, failed) := fold_left (pass_step g (assigned s)) (seq 0 (length g)) (values s, changed s, false) in
+      mk_cstate vals (assigned s) (if failed then (if retain then ch else []) else []) (suspended s).
 
   (** assign_all l.802-809: defn.assign_all(...) ; update_intermediate_values([defn]) *)
   Definition assign (g : dgraph) (s : cstate) (d : nat) (v : V) : cstate :=
